@@ -209,15 +209,33 @@ def main(tier: str) -> int:
     for rows_ in scases:
         slines.append("#eval IO.println (showM (Net_softmax_numba (fun z => if z = 0 then 1 else 0) { ncols := %d, rows := %s }))"
                       % (len(rows_[0]), "[" + ", ".join("[" + ", ".join("(%d : Rat)" % v for v in r) + "]" for r in rows_) + "]"))
+    # ... and multiactivation2d for every code, on entries where the double exp / tanh are exact: 0 and magnitudes at which they saturate
+    from thefittest.utils import multiactivation2d as _mact
+    acases = []
+    for code_ in (0, 1, 2, 3, 4, 5, 0, 1, 2, 3, 4):
+        nr_, nc_ = rng.randint(1, 3), rng.randint(1, 4)
+        pool_ = {0: [0, 800], 1: [-3, 0, 2, 5], 2: [0, 30, -30], 3: [0, 40, -40], 4: [-3, 0, 7], 5: [0, -800]}[code_]
+        acases.append((code_, [[rng.choice(pool_) for _ in range(nc_)] for _ in range(nr_)]))
+    slines.insert(0, "import TFV.Generated.Src.Net_multiactivation2d")
+    for code_, rows_ in acases:
+        slines.append("#eval IO.println (showM (Net_multiactivation2d (fun z => if z = 0 then 1 else 0) (fun z => if z = 0 then 0 else if z > 0 then 1 else -1) { ncols := %d, rows := %s } %d))"
+                      % (len(rows_[0]), "[" + ", ".join("[" + ", ".join("(%d : Rat)" % v for v in r) + "]" for r in rows_) + "]", code_))
     saudit = C.LEAN / "TFV" / "Audit" / "C12_np.lean"
     saudit.parent.mkdir(parents=True, exist_ok=True)
     saudit.write_text("\n".join(slines) + "\n")
     with C.LeanLock():
         spr = subprocess.run(["lake", "env", "lean", str(saudit.relative_to(C.LEAN))], cwd=C.LEAN, capture_output=True, text=True, timeout=900)
     sgot = [l.strip() for l in spr.stdout.splitlines() if l.strip()]
-    chk.obligation("the translated softmax kernel evaluates (lake env lean TFV/Audit/C12_np.lean)", spr.returncode == 0 and len(sgot) == len(scases), (spr.stdout + spr.stderr)[-600:])
-    if spr.returncode == 0 and len(sgot) == len(scases):
+    chk.obligation("the translated softmax kernel evaluates (lake env lean TFV/Audit/C12_np.lean)", spr.returncode == 0 and len(sgot) == len(scases) + len(acases), (spr.stdout + spr.stderr)[-600:])
+    if spr.returncode == 0 and len(sgot) == len(scases) + len(acases):
         import re as _re
+        for (code_, rows_), g in zip(acases, sgot[len(scases):]):
+            with np.errstate(all="ignore"):
+                real = [float(v) for v in np.asarray(_mact(np.array(rows_, dtype=np.float64), np.int64(code_))).reshape(-1)]
+            vals = [int(a) / int(b) for a, b in _re.findall(r"\((-?\d+), (\d+)\)", g)]
+            chk.count("np_kernel_activation_%d" % code_)
+            same = len(real) == len(vals) and all(C.close(a, b, 1e-12, 1e-15) for a, b in zip(real, vals))
+            (chk.agree("np_kernel:multiactivation2d") if same else chk.disagree("np_kernel:multiactivation2d", {"input": {"X": rows_, "code": code_}, "impl": real, "model": g}))
         for rows_, g in zip(scases, sgot):
             real = [float(v) for v in np.asarray(_softmax_numba(np.array(rows_, dtype=np.float64))).reshape(-1)]
             vals = [int(a) / int(b) for a, b in _re.findall(r"\((-?\d+), (\d+)\)", g)]
